@@ -600,7 +600,7 @@ void get_argspec_string(struct uftrace_task_reader *task, char *args, size_t len
 				print_args(&args, &len, "'");
 				print_args(&args, &len, "%s", color_reset);
 			}
-			size = 1;
+			/* the writer (and read_task_arg) step over spec->size bytes */
 		}
 		else if (spec->fmt == ARG_FMT_FLOAT) {
 			if (spec->size == 10)
